@@ -7,6 +7,7 @@ import (
 	"encoding/hex"
 	"fmt"
 	"runtime"
+	"runtime/debug"
 
 	"github.com/semihalev/twig"
 
@@ -32,12 +33,18 @@ func runBinCase(fam string, data []byte, detail interface{}) *vlib.Outcome {
 	p := guard(func() { ct, derr = twig.DeserializeCompiledTemplate(data) })
 	runtime.ReadMemStats(&memAfter)
 	if p != "" {
+		debug.FreeOSMemory()
 		o.Violation = "DeserializeCompiledTemplate(" + show() + ") panicked: " + p
 		o.Detail = detail
 		o.Class = fam + ":PANIC"
 		return o
 	}
 	alloc := memAfter.TotalAlloc - memBefore.TotalAlloc
+	if alloc > 256<<20 {
+		// give a runaway allocation back at once, so that the workers together never hold many GiB
+		ct = nil
+		debug.FreeOSMemory()
+	}
 	if limit := uint64(allocSlack + 64*len(data)); alloc > limit {
 		o.Violation = fmt.Sprintf("DeserializeCompiledTemplate(%s) allocated %d bytes (limit for this input %d): a length prefix is trusted beyond the remaining input", show(), alloc, limit)
 		o.Detail = detail
